@@ -288,8 +288,8 @@ func unionCase(r *rand.Rand) (string, [][]string) {
 			parts = append(parts, gen.Skip(r, 3+r.Intn(3), 1, 3, 0.4, 1+r.Intn(3), 2+r.Intn(2)))
 		case 5:
 			// a dense cyclic part: needs many pivots, so it is the part that meets the iteration budget first
-			m := 9 + r.Intn(8)
-			parts = append(parts, gen.Connect(r, gen.Digraph(r, m, 2*m+r.Intn(m)), false))
+			m := 9 + r.Intn(6)
+			parts = append(parts, gen.Connect(r, gen.Digraph(r, m, m+m/2+r.Intn(m)), false))
 		default:
 			parts = append(parts, gen.DAG(r, 2+r.Intn(8), 0.4))
 		}
@@ -313,8 +313,37 @@ func init() {
 			r := rng("C09", seed, tier, idx)
 			c := &core.Case{Prop: "C09", Tier: tier, Seed: seed, Index: idx}
 			c.Family, c.Edges = unionCase(r)
+			budget := r.Intn(4) == 0
+			if budget {
+				// budget-sensitive unions: a low thoroughness, one part of 10-15 nodes that needs several pivots (its own budget
+				// is thoroughness*3) and fillers that lift the total past 16 nodes: a budget taken from the whole input differs
+				var parts []gen.IG
+				n := 10 + r.Intn(6)
+				switch r.Intn(3) {
+				case 0:
+					parts = append(parts, gen.Slack(r))
+				case 1:
+					parts = append(parts, gen.Connect(r, gen.DAG(r, n, 0.3+0.2*r.Float64()), true))
+				default:
+					parts = append(parts, gen.Connect(r, gen.Digraph(r, n, 2*n+r.Intn(n)), false))
+				}
+				for total := parts[0].N; total < 17+r.Intn(10); {
+					f := gen.DAG(r, 2+r.Intn(4), 0.6)
+					parts = append(parts, f)
+					total += f.N
+				}
+				r.Shuffle(len(parts), func(i, j int) { parts[i], parts[j] = parts[j], parts[i] })
+				g, _ := gen.Union(r, parts)
+				c.Family, c.Edges = "F5-union(budget-sensitive)", gen.Names(g)
+			}
 			ids := nodeIDs(c.Edges)
 			o := fastCell(r, 6, true) // parts are small, the slow positioner is affordable
+			if budget {
+				o.Layerer = 0
+				if o.Positioner == 3 {
+					o.Positioner = 0
+				}
+			}
 			if o.Positioner == 3 {
 				sizes := map[int]int{}
 				vv := newView(c.Edges, o, graph.Layout{}, true)
@@ -343,6 +372,9 @@ func init() {
 				o.Thoroughness = uptr(1)
 			case 1:
 				o.Thoroughness = uptr(uint(2 + r.Intn(3)))
+			}
+			if budget {
+				o.Thoroughness = uptr(uint(1 + r.Intn(2)))
 			}
 			capNS(&o)
 			c.Opts = o
